@@ -337,7 +337,7 @@ func DisplayLine(l *Line, indent int) {
 
 		// Clear everything after each line, except the last.
 		if num < len(lines)-1 {
-			if len(line)+indent < term.GetWidth() {
+			if strutil.RealLength(line)+indent < term.GetWidth() {
 				line += term.ClearLineAfter
 			}
 
